@@ -653,41 +653,61 @@ func (l Line) webVTTBytes() (c []byte) {
 }
 
 func (li LineItem) webVTTBytes(previous, next *LineItem) (c []byte) {
-	// Add timestamp
-	if li.StartAt > 0 {
-		c = append(c, []byte("<"+formatDurationWebVTT(li.StartAt)+">")...)
-	}
-
 	// Get color
 	var color string
 	if li.InlineStyle != nil && li.InlineStyle.TTMLColor != nil {
 		color = cssColor(*li.InlineStyle.TTMLColor)
 	}
 
+	// Tags shared with the previous item are already open, tags shared with the next one stay open.
+	// Only a common prefix of the tag stacks can be shared, otherwise tags wouldn't be properly nested.
+	var tags []WebVTTTag
+	if li.InlineStyle != nil {
+		tags = li.InlineStyle.WebVTTTags
+	}
+	var sharedWithPrevious, sharedWithNext int
+	if color == "" {
+		sharedWithPrevious = webVTTSharedTags(tags, previous)
+		sharedWithNext = webVTTSharedTags(tags, next)
+	}
+
 	// Append
 	if color != "" {
 		c = append(c, []byte("<c."+color+">")...)
 	}
-	if li.InlineStyle != nil {
-		for idx, tag := range li.InlineStyle.WebVTTTags {
-			if previous != nil && previous.InlineStyle != nil && len(previous.InlineStyle.WebVTTTags) > idx && tag.Name == previous.InlineStyle.WebVTTTags[idx].Name {
-				continue
-			}
-			c = append(c, []byte(tag.startTag())...)
-		}
+	for idx := sharedWithPrevious; idx < len(tags); idx++ {
+		c = append(c, []byte(tags[idx].startTag())...)
+	}
+
+	// Add timestamp right before the text it applies to
+	if li.StartAt > 0 {
+		c = append(c, []byte("<"+formatDurationWebVTT(li.StartAt)+">")...)
 	}
 	c = append(c, []byte(escapeHTML(li.Text))...)
-	if li.InlineStyle != nil {
-		for i := len(li.InlineStyle.WebVTTTags) - 1; i >= 0; i-- {
-			tag := li.InlineStyle.WebVTTTags[i]
-			if next != nil && next.InlineStyle != nil && len(next.InlineStyle.WebVTTTags) > i && tag.Name == next.InlineStyle.WebVTTTags[i].Name {
-				continue
-			}
-			c = append(c, []byte(tag.endTag())...)
-		}
+	for idx := len(tags) - 1; idx >= sharedWithNext; idx-- {
+		c = append(c, []byte(tags[idx].endTag())...)
 	}
 	if color != "" {
 		c = append(c, []byte("</c>")...)
+	}
+	return
+}
+
+// webVTTSharedTags returns the number of leading tags that are identical in tags and in the other item's tags
+func webVTTSharedTags(tags []WebVTTTag, other *LineItem) (n int) {
+	if other == nil || other.InlineStyle == nil {
+		return
+	}
+	// The other item is wrapped in a color tag of its own, nothing can be shared
+	if other.InlineStyle.TTMLColor != nil && cssColor(*other.InlineStyle.TTMLColor) != "" {
+		return
+	}
+	for n < len(tags) && n < len(other.InlineStyle.WebVTTTags) {
+		a, b := tags[n], other.InlineStyle.WebVTTTags[n]
+		if a.Name != b.Name || a.Annotation != b.Annotation || strings.Join(a.Classes, ".") != strings.Join(b.Classes, ".") {
+			break
+		}
+		n++
 	}
 	return
 }
